@@ -65,6 +65,18 @@ Base(name) ==
            <<S1, PPowerLevels(UC, MkPL((UC.name :> 100) @@ (UA.name :> 50) @@ (UB.name :> 50))), "$I", 2, {"$F"}>>,
            <<S1, PMember(UC, UC, "join"), "$J", 3, {"$H", "$I"}>>,
            <<S2, PTopic(UB, 2), "$K", 3, {"$I"}>>>>
+    [] name = "deepmain" ->      \* a mainline of three power levels events ($H, $F, $C) and a concurrent one ($I) that loses against
+                                 \* $H: A's topic $J cites the loser (its position is that of $I's own parent $F), A's topic $K
+                                 \* cites $F directly
+         <<<<S1, PCreate, "$A", 0>>, <<S1, PMember(UC, UC, "join"), "$B", 0>>,
+           <<S1, PPowerLevels(UC, MkPL((UC.name :> 100))), "$C", 0>>,
+           <<S1, PJoinRules(UC, "public"), "$D", 0>>, <<S1, PMember(UA, UA, "join"), "$E", 0>>,
+           <<S1, PPowerLevels(UC, MkPL((UC.name :> 100) @@ (UA.name :> 50))), "$F", 0>>,
+           <<S2, PMember(UB, UB, "join"), "$G", 0>>,
+           <<S1, PPowerLevels(UC, MkPL((UC.name :> 100) @@ (UA.name :> 50) @@ (UB.name :> 50))), "$H", 2, {"$G"}>>,
+           <<S1, PPowerLevels(UC, MkPL((UC.name :> 100) @@ (UA.name :> 100))), "$I", 1, {"$G"}>>,
+           <<S1, PTopic(UA, 1), "$J", 5, {"$I"}>>,
+           <<S1, PTopic(UA, 2), "$K", 3, {"$G"}>>>>
     [] name = "restricted" ->    \* restricted room (v8+): A joined with 50, B outside
          <<<<S1, PCreate, "$A", 0>>, <<S1, PMember(UC, UC, "join"), "$B", 0>>,
            <<S1, PPowerLevels(UC, MkPL((UC.name :> 100) @@ (UA.name :> 50))), "$C", 0>>,
